@@ -651,7 +651,11 @@ func (vc *VC) applyHint(c *Clause, env *Env, pc string) {
 			specFail("use: unknown lemma %s", call.Fn)
 		}
 		vc.usedLemmas[lm.Name] = true
-		vc.assume(pc, vc.lemmaInstance(lm, call, env))
+		req, ens := vc.lemmaParts(lm, call, env)
+		if req != "true" {
+			vc.oblige("pre", "lemma "+lm.Name, pc, req, nil, 0, "precondition of lemma "+lm.Name+" at a `use` hint")
+		}
+		vc.assume(pc, ens)
 	case "assume":
 		vc.explicitAssumes = append(vc.explicitAssumes, c.Text)
 		vc.assume(pc, vc.evalBool(c.Expr, env))
@@ -711,6 +715,11 @@ func (vc *VC) unfoldTerm(sf *SpecFunc, call SCall, env *Env) string {
 }
 
 func (vc *VC) lemmaInstance(lm *Lemma, call SCall, env *Env) string {
+	r, e := vc.lemmaParts(lm, call, env)
+	return implies(r, e)
+}
+
+func (vc *VC) lemmaParts(lm *Lemma, call SCall, env *Env) (string, string) {
 	fenv := &Env{vc: vc, pkg: vc.w.pkgForFile(lm.File)}
 	if len(call.Args) != len(lm.Params) {
 		specFail("lemma %s: want %d args", lm.Name, len(lm.Params))
@@ -732,7 +741,7 @@ func (vc *VC) lemmaInstance(lm *Lemma, call SCall, env *Env) string {
 	for _, c := range lm.Ensures {
 		enss = append(enss, vc.evalBool(c.Expr, n))
 	}
-	return implies(and(reqs...), and(enss...))
+	return and(reqs...), and(enss...)
 }
 
 // ---------------------------------------------------------------------------
